@@ -1074,4 +1074,23 @@ theorem resume_effect {f : Facts} {m : OvMode} (s : State) (p file off : Nat)
         | panic => simp [hcov, poison] at h
         | abort => simp [hcov, poison] at h
 
+/-! ### concurrent callers -/
+
+/-- `Merge ts m`: `m` is an interleaving of the thread programs `ts` (each thread's calls in program order). -/
+inductive Merge : List (List Op) → List Op → Prop where
+  | done (ts : List (List Op)) : (∀ t ∈ ts, t = []) → Merge ts []
+  | pick (ts : List (List Op)) (i : Nat) (op : Op) (rest m : List Op) :
+      ts[i]? = some (op :: rest) → Merge (ts.set i rest) m → Merge ts (op :: m)
+
+/-- The methods whose bodies must be one critical section for "every interleaving of calls is a
+sequential history" to describe the code. -/
+def lockedMethods : List String :=
+  ["set_peer", "peer", "push_replay", "replay_chunks_from", "request_resume", "wait_for_reconnect",
+   "wait_for_credit", "record_sent", "record_ack", "cancel", "is_cancelled", "cancel_reason",
+   "advance_to_file", "offsets"]
+
+/-- every listed method takes the mutex, and every method that takes it does so exactly once -/
+def singleSection (lockCalls : List (String × Nat)) : Bool :=
+  lockCalls.all (fun e => e.2 == 1) && lockedMethods.all (fun m => lockCalls.any (fun e => e.1 == m))
+
 end Repe.Transfer
